@@ -97,12 +97,14 @@ struct Ctx {
     size_t terms_total_raw=0, terms_total_vals=0, terms_total_polys=0, terms_total_atoms=0;
     void reset_store();
     id_t mono(const MonoV &m) { auto it=mono_hc.find(m); if (it!=mono_hc.end()) return it->second; monos.push_back(m); return mono_hc[m]=monos.size()-1; }
-    size_t poly_calls=0;
+    size_t poly_calls=0, max_coef_bits=2000000;
     static size_t rss_bytes() { FILE *f=fopen("/proc/self/statm","r"); if (!f) return 0; long a=0,b=0; if (fscanf(f,"%ld %ld",&a,&b)!=2) b=0; fclose(f); return (size_t)b*4096; }
     id_t poly(const PolyV &p) {
         if (p.size() > max_poly_terms) throw blowup("polynomial with " + std::to_string(p.size()) + " terms");
         // memory guard: the process has a 9 GB address-space limit and GMP cannot recover from a failed allocation; stop the path well before that
         if ((++poly_calls & 0xfff) == 0 && rss_bytes() > (size_t)3500 << 20) throw blowup("harness memory budget (3.5 GB resident) reached");
+        // size guard (deterministic): exact rationals whose numerator or denominator passes 2 million bits are beyond any solver query; stop the path
+        if (!p.empty() && (mpz_sizeinbase(p.back().second.get_num_mpz_t(),2) > max_coef_bits || mpz_sizeinbase(p.back().second.get_den_mpz_t(),2) > max_coef_bits)) throw blowup("rational coefficient with more than " + std::to_string(max_coef_bits) + " bits");
         std::vector<std::pair<id_t,std::string>> key; key.reserve(p.size()); for (auto &t : p) key.push_back({t.first, t.second.get_str(62)});
         auto it=poly_hc.find(key); if (it!=poly_hc.end()) return it->second; polys.push_back(p); return poly_hc[key]=polys.size()-1; }
     id_t val(id_t n, id_t d) { auto k=std::make_pair(n,d); auto it=val_hc.find(k); if (it!=val_hc.end()) return it->second; vals.push_back({n,d}); return val_hc[k]=vals.size()-1; }
